@@ -378,7 +378,7 @@ def scenario_to_case(s: dict, seed: int, idx: int) -> dict:
 
 
 # ------------------------------------------------------------------------------------------------
-LADDER_TIMEOUT = 120.0
+LADDER_TIMEOUT = 60.0
 
 
 def _ladder_child(depth: int, fn: str, q) -> None:
